@@ -494,21 +494,21 @@ def _plan(tier, seed):
             jobs.append((flavor, dict(**{"from": base + 100000 + i * slow_per}, count=slow_per, defh=i % 2, sendcap=0,
                                       profile="slow", silence=silence * 2, closewait=closewait, settle=settle,
                                       bigmax=bigmax)))
-    def race(flavor, n_proc, rounds, base, stall=1000, silence=8000, hammers=0):
+    def race(flavor, n_proc, rounds, base, stall=1000, silence=8000, hammers=0, conns=8):
         for i in range(n_proc):
             jobs.append((flavor, dict(**{"from": base + 200000 + i}, count=1, defh=0, sendcap=0, profile="race", silence=silence,
                                       closewait=2500, settle=150, bigmax=0, rounds=rounds, stall=stall,
-                                      hammers=hammers if i % 2 else 0, raceconns=8)))
+                                      hammers=hammers if i % 2 else 0, raceconns=conns)))
     if tier == "thorough":
         race("plain", 6, 20000, 0, hammers=1)
-        race("asan", 2, 6000, 10000, stall=2500, silence=15000)
-        race("tsan", 2, 4000, 20000, stall=3000, silence=20000)
+        race("asan", 2, 3000, 10000, stall=2500, silence=15000)
+        race("tsan", 2, 600, 20000, stall=3000, silence=20000, conns=4)
         add("plain", 16, 60, 0, slow_procs=6, slow_per=12)
         add("asan", 16, 25, 10000, slow_procs=2, slow_per=10, silence=15000, closewait=5000, settle=300)
         add("tsan", 16, 25, 20000, slow_procs=2, slow_per=10, silence=20000, closewait=6000, settle=400)
     else:
         race("plain", 2, 4000, 0)
-        race("tsan", 1, 1500, 20000, stall=3000, silence=20000)
+        race("tsan", 1, 250, 20000, stall=3000, silence=20000, conns=4)
         add("plain", 10, 7, 0, slow_procs=2, slow_per=3)
         add("tsan", 5, 4, 20000, slow_procs=0, silence=20000, closewait=6000, settle=400)
     return jobs
